@@ -107,7 +107,9 @@ What the seeded changes made me strengthen (each was a miss or an "undecided" be
   `O-C18-k-(d)dispatch-open-no-error`; the lock group is now also run for C18.
 
 Harmless edits (`seeded/benign/*.diff`; `b*` written by me, `a_*` by sub-agents that were given the property texts and asked for behaviour-preserving refactors of one area each): %s. They compile, pass the suite, keep
-every property, and `tools/benignrun.sh` runs all 18 checks against each: no check prints a VIOLATION line.
+every property. `tools/benignfast.py` runs, per patch, the Verus unit, every witness suite and every Kani group against a scratch
+copy with the patch applied, with the verdict logic of `check`: none of the %d raises an alarm (last full run: 198 of 198 ok); the
+first 19 were also run through all 18 checks with `tools/benignrun.sh` (no VIOLATION line).
 Most verify completely (exit 0 everywhere); where an edit leaves the Verus subset or loses an anchor the
 properties of that function end *undecided* (exit 2), never as an alarm: `b10_drain_loop` (`Vec::drain`),
 `b13_decoy_loops_and_closures` (an unrelated closure with `x * 2`, whose overflow Verus cannot exclude:
@@ -173,7 +175,7 @@ the machinery, never in the properties:
 * (found by review, not by an edit) the model pinned `action_executed`, `effect_executed`, `state_notified`,
   `subscriber_notified` and "the shutdown marker counts as received" → only the counters of the balance
   equations are modelled, the marker may or may not be booked.
-''' % (len(rows), '\n'.join(rows), ', '.join('`%s`' % b for b in benign))
+''' % (len(rows), '\n'.join(rows), ', '.join('`%s`' % b for b in benign), len(benign))
 p = os.path.join(HERE, '..', 'DESIGN.md')
 s = open(p).read()
 a = s.index('## 9. Seeded changes: which check catches which change')
